@@ -25,7 +25,9 @@ var numTable = []string{"0", "1", "-1", "2", "3", "-3", "5", "7", "0.5", "-0.5",
 	"127", "128", "-128", "-129", "255", "256", "32767", "32768", "65535", "65536", "2147483647", "2147483648", "-2147483648", "-2147483649", "4294967295", "4294967296",
 	"9007199254740991", "9007199254740992", "-9007199254740991", "-9007199254740992", "1000000000.5", "123456789012.5", "100", "10", "1000000", "6", "0.25", "12.5", "-7.5",
 	// instance values are only bounded by the range of their type: the extremes of the 64-bit kinds
-	"9223372036854775807", "9223372036854774783", "-9223372036854775808", "18446744073709551615", "4611686018427387904", "9007199254740993"}
+	"9223372036854775807", "9223372036854774783", "-9223372036854775808", "18446744073709551615", "4611686018427387904", "9007199254740993",
+	// small negative integers against small factors: sign handling of the integer multipleOf paths
+	"-9", "9", "-10", "-6", "4", "-4", "-15"}
 
 var numKinds = []string{"float64", "float32", "int", "int8", "int16", "int32", "int64", "uint", "uint8", "uint16", "uint32", "uint64", "jsonNumber"}
 
@@ -330,7 +332,8 @@ func driveNumeric(args []string) error {
 			var keep, rest [][2]string
 			for _, p := range pairs {
 				big := len(p[0]) >= 18
-				if p[0] == p[1] || p[0] == "0" || p[1] == "0" || (big && len(p[1]) <= 2) {
+				small := func(s string) bool { return len(strings.TrimPrefix(s, "-")) <= 2 && !strings.Contains(s, ".") }
+				if p[0] == p[1] || p[0] == "-"+p[1] || p[0] == "0" || p[1] == "0" || (big && len(p[1]) <= 2) || (small(p[0]) && small(p[1])) {
 					keep = append(keep, p)
 				} else {
 					rest = append(rest, p)
